@@ -154,13 +154,16 @@ partial def showItems (l : List Item) : String := " ".intercalate (l.map showIte
 end
 
 /-- a hash array as read back: the entries sorted by the text of their key (the reader's own table order is not
-    the writer's) -/
-def showArr (h rc tl th tli : Nat) (rendered : List String) : String :=
-  let rec pairs : List String → List (String × String)
-    | k :: v :: r => (k, v) :: pairs r
-    | _ => []
-  let ps := ((pairs rendered).toArray.qsort fun a b => a.1 < b.1).toList
-  s!"arr {h} {rc} {tl} {th} {tli} {ps.length}" ++ (if ps.isEmpty then "" else " " ++ " ".intercalate (ps.map fun (k, v) => k ++ " " ++ v))
+    the writer's); an entry that a look-up under its own key does not find is shown as `lost:<key>` — the harness
+    gives the listener of label `L` an address with `address % 7 = L % 6 + 1` -/
+def showArr (h rc tl th tli : Nat) (keys : List Value) (rendered : List String) : String :=
+  let rec pairs : List Value → List String → List (Value × String × String)
+    | kv :: _ :: ks, k :: v :: r => (kv, k, v) :: pairs ks r
+    | _, _ => []
+  let ps := ((pairs keys rendered).toArray.qsort fun a b => a.2.1 < b.2.1).toList
+  let show1 := fun (e : Value × String × String) =>
+    (if foundAfterLoad (fun _ => 0) (fun o => o % 6 + 1) tl e.1 then "" else "lost:") ++ e.2.1 ++ " " ++ e.2.2
+  s!"arr {h} {rc} {tl} {th} {tli} {ps.length}" ++ (if ps.isEmpty then "" else " " ++ " ".intercalate (ps.map show1))
 
 mutual
 partial def showValue : Value → String
@@ -175,7 +178,7 @@ partial def showValue : Value → String
   | .link c _ l => s!"{match c with | 6 => "l" | 7 => "ref" | 10 => "con" | _ => "scon"} {l}"
   | .holderRef c h => s!"{match c with | 8 => "aref" | 9 => "car" | _ => "pref"} {h}"
   | .pointer p vs => s!"ptr {p} {vs.length}" ++ (if vs.isEmpty then "" else " " ++ " ".intercalate (vs.map toString))
-  | .array h rc tl th tli es => showArr h rc tl th tli (es.map fun (_, v) => showValue v)
+  | .array h rc tl th tli es => showArr h rc tl th tli (es.map (·.2)) (es.map fun (_, v) => showValue v)
   | .constArray h rc es => s!"ca {h} {rc} {es.length}" ++ (if es.isEmpty then "" else " " ++ " ".intercalate (es.map fun (_, v) => showValue v))
 end
 
@@ -198,7 +201,7 @@ partial def showValueD (d : Dict) : Value → List Nat → String × List Nat
     (s!"ca {h} {rc} {es.length}" ++ (if es.isEmpty then "" else " " ++ " ".intercalate r.1), r.2)
   | .array h rc tl th tli es, ids =>
     let r := showElemsD d es ids
-    (showArr h rc tl th tli r.1, r.2)
+    (showArr h rc tl th tli (es.map (·.2)) r.1, r.2)
   | v, ids => (showValue v, ids)
 partial def showElemsD (d : Dict) : List (Lbl × Value) → List Nat → List String × List Nat
   | [], ids => ([], ids)
